@@ -1,12 +1,18 @@
 use crate::ctx::{Ctx, Tier};
 
 pub mod c01;
+pub mod c02;
+pub mod c03;
+pub mod c04;
 pub mod c09;
 
 pub fn dispatch(id: &str, tier: Tier, seed: u64, extra: &[String]) -> i32 {
     let _ = extra;
     match id {
         "C01" => c01::run(&Ctx::new("C01", tier, seed)),
+        "C02" => c02::run(&Ctx::new("C02", tier, seed)),
+        "C03" => c03::run(&Ctx::new("C03", tier, seed)),
+        "C04" => c04::run(&Ctx::new("C04", tier, seed)),
         "C09" => c09::run(&Ctx::new("C09", tier, seed)),
         _ => {
             eprintln!("unknown check {}", id);
